@@ -15,7 +15,7 @@ Hex2(v) == <<HexDigit(v \div 16), HexDigit(v % 16)>>
 Hex4(v) == Hex2(v \div 256) \o Hex2(v % 256)
 Oct3(v) == <<48 + (v \div 64), 48 + ((v \div 8) % 8), 48 + (v % 8)>>
 C(v) == [k |-> "c", v |-> v]
-PlainChars == {97, 48, 55, DQ, SQ, LF, 233, 128049, BS, 120}
+PlainChars == {97, 48, 55, DQ, SQ, LF, CR, 233, 128049, BS, 120}
 CookedItems == { C(v) : v \in PlainChars \ {BS} }
      \cup { [k |-> "s", v |-> v] : v \in {110, BS, DQ, SQ, 116} }
      \cup { [k |-> "x", v |-> v] : v \in {65, 233, 1} }
@@ -44,7 +44,7 @@ IsPlain(its, j, c) == j >= 1 /\ j <= Len(its) /\ its[j] = C(c)
 Valid(st, its) == \A j \in 1..Len(its) :
    LET it == its[j] IN it.k = "c" =>
      /\ (it.v = QuoteChar(st) => Triple(st) /\ j > 1 /\ j < Len(its) /\ ~IsPlain(its, j - 1, it.v) /\ ~IsPlain(its, j + 1, it.v))
-     /\ (it.v = LF => Triple(st))
+     /\ (it.v \in {LF, CR} => Triple(st))          \* a line break (LF, CR, CR LF) may stand in a triple-quoted literal only, and is kept as written
      /\ (it.v = BS => st.r /\ j < Len(its) /\ its[j + 1].k = "c" /\ its[j + 1].v \notin {DQ, SQ, BS})
 Mk5(st, its) == [style |-> st, items |-> its]
 Init == /\ style \in STYLES /\ items = <<>> /\ valid = TRUE /\ text = Text(style, <<>>) /\ exp = Value(style, <<>>)
